@@ -54,7 +54,7 @@ def r05_a(prog: Program, chk: Check, b: Binder) -> None:
         "R05.a",
         "per parameter kind, the guarded actions of bind_arguments equal CPython's binding order on the "
         "definite-argument slice (truth table over HAS_POSITIONAL / HAS_KEYWORD / HAS_DEFAULT)",
-        floor=26,
+        floor=18,
     )
     site = prog.site("signature", b.fn)
     for kind in ("POSITIONAL_ONLY", "POSITIONAL_OR_KEYWORD", "KEYWORD_ONLY"):
@@ -147,7 +147,7 @@ R05C_EXCEPTIONS = {
 
 
 def r05_c(prog: Program, chk: Check, b: Binder) -> None:
-    chk.rule("R05.c", "error discipline: every show_call_error in bind_arguments is immediately followed by `return None`", floor=14)
+    chk.rule("R05.c", "error discipline: every show_call_error in bind_arguments is immediately followed by `return None`", floor=9)
     n = 0
     counts: Dict[str, int] = {}
     for st in walk_no_nested(b.fn):
